@@ -24,6 +24,16 @@ theorem n_loops_is_source_count (fs : List Node) :
   rw [loopsN_eq_allLoops]
   rfl
 
+
+/-- The handler tables of the live `FindLoops` and `Variables` classes (REGENERATED on every run)
+    are the ones the models `loopsN` / `varsN` were written against. -/
+theorem findLoops_dispatch_as_modelled :
+    Gen.findLoopsOwn = ["Case", "Compound", "DeclList", "Default", "DoWhile", "ExprList", "For", "FuncDef", "If", "Label", "ParamList", "Switch", "While"] ∧
+    Gen.findLoopsPass = ["ArrayDecl", "ArrayRef", "Assignment", "BinaryOp", "Break", "Cast", "Constant", "Continue", "Decl", "EmptyStatement", "FuncCall", "Goto", "ID", "Return", "TernaryOp", "TypeDecl", "UnaryOp"] ∧
+    Gen.variablesOwn = ["Assignment", "BinaryOp", "Case", "Cast", "Compound", "Decl", "DeclList", "Default", "DoWhile", "ExprList", "For", "FuncDef", "ID", "If", "Label", "ParamList", "Return", "UnaryOp", "While"] ∧
+    Gen.variablesPass = ["ArrayDecl", "ArrayRef", "Break", "Constant", "Continue", "EmptyStatement", "FuncCall", "Goto", "Switch", "TernaryOp", "TypeDecl"] ∧
+    Gen.reserved = ["true", "false"] := by decide
+
 -- non-vacuity: a loop under a label inside a branch inside a loop is found, in source order
 example : (Spec.allLoops Spec.countedFor
     (.funcDef (.decl (some "f") (.funcDecl none) none) (.compound (some [
